@@ -87,7 +87,7 @@ class C12(CheckBase):
         return case_st()
 
     def examples(self, tier):
-        return 3000 if tier == "quick" else 40000
+        return 6000 if tier == "quick" else 60000
 
     def sample(self, case):
         return {"names": [[chr(e["dir"]), e["name"]] for e in case["ents"]], "curdir": chr(case["curdir"]),
